@@ -34,3 +34,100 @@ Proof.
     + rewrite app_length. cbn [length]. rewrite Nat.add_1_r.
       rewrite (firstn_S_nth x 0 (length pre)) by lia. rewrite <- Hp. reflexivity.
 Qed.
+
+Lemma sg_loop0_eq (x : list Z) : forall f j out ok, gen_simplex_grid_loop0 f j out ok x = gen_simplex_grid_loop2 f j out ok x 0.
+Proof. induction f as [|f IH]; intros j out ok; cbn [gen_simplex_grid_loop0 gen_simplex_grid_loop2]; [reflexivity|]. apply IH. Qed.
+
+Lemma sg_loop2_tie (x : list Z) i : forall f j (out : list (list Z)) ok, (i < length out)%nat ->
+  exists ok', gen_simplex_grid_loop2 f (Z.of_nat j) out ok x (Z.of_nat i) =
+    (upd_nth out i (fold_left (fun r j => upd_nth r j (nth j x 0)) (seq j f) (nth i out [])), ok').
+Proof.
+  induction f as [|f IH]; intros j out ok Hi; cbn [gen_simplex_grid_loop2 seq fold_left].
+  - exists ok. rewrite upd_nth_same. reflexivity.
+  - rewrite (@set2_nat Z), Nat2Z.id. replace (Z.of_nat j + 1) with (Z.of_nat (S j)) by lia.
+    destruct (IH (S j) (upd_nth out i (upd_nth (nth i out []) j (nth j x 0)))
+                 (ok && inb (Z.of_nat j) x && inb2 (Z.of_nat i) (Z.of_nat j) out)) as [ok' E];
+      [rewrite upd_nth_length; exact Hi|].
+    exists ok'. rewrite E. rewrite nth_upd_nth_eq by exact Hi. rewrite upd_nth_twice. reflexivity.
+Qed.
+
+Lemma sg_copy_full (x row : list Z) : length row = length x ->
+  fold_left (fun r j => upd_nth r j (nth j x 0)) (seq 0 (length x)) row = x.
+Proof.
+  intro Hl. pose proof (sg_copy_row x (length x) [] row ltac:(cbn; lia) Hl eq_refl) as E. cbn [length app Nat.add] in E.
+  rewrite E, firstn_all, skipn_all2 by lia. apply app_nil_r.
+Qed.
+
+Section Grid.
+Variables (mN : nat).
+Let m := Z.of_nat mN.
+
+Lemma sg_step_length st : length (fst (sg_step m st)) = length (fst st).
+Proof.
+  destruct st as [x h]. unfold sg_step. cbv zeta. cbn [fst]. unfold zupd.
+  rewrite <- !upd_upd_nth, !upd_nth_length. reflexivity.
+Qed.
+
+Lemma sg_loop1_tie : forall f i h (x : list Z) (pre rest : list (list Z)) ok,
+  length pre = i -> length x = mN -> (forall row, In row rest -> length row = mN) -> (f <= length rest)%nat ->
+  exists h' x' ok', gen_simplex_grid_loop1 f (Z.of_nat i) h x (pre ++ rest) ok m =
+    (h', x', pre ++ sg_rows f m (x, h) ++ skipn f rest, ok').
+Proof.
+  induction f as [|f IH]; intros i h x pre rest ok Hp Hx Hrest Hf; cbn [gen_simplex_grid_loop1 sg_rows skipn app].
+  - exists h, x, ok. reflexivity.
+  - destruct rest as [|r0 rest]; [cbn in Hf; lia|]. cbn [length] in Hf.
+    set (x3 := fst (sg_step m (x, h))).
+    assert (Ex3 : upd_nth (upd_nth (upd_nth x (Z.to_nat (h - 1)) 0) (Z.to_nat (m - 1)) (nth (Z.to_nat (h - 1)) x 0 - 1))
+                    (Z.to_nat (h - 1 - 1))
+                    (nth (Z.to_nat (h - 1 - 1)) (upd_nth (upd_nth x (Z.to_nat (h - 1)) 0) (Z.to_nat (m - 1)) (nth (Z.to_nat (h - 1)) x 0 - 1)) 0 + 1) = x3).
+    { unfold x3, sg_step, zupd, zget. cbv zeta. cbn [fst]. rewrite !upd_upd_nth. reflexivity. }
+    rewrite Ex3. replace (Z.to_nat (m - 0)) with mN by (unfold m; lia).
+    assert (Hx3 : length x3 = mN) by (unfold x3; rewrite sg_step_length; exact Hx).
+    match goal with |- context [gen_simplex_grid_loop2 mN 0 (pre ++ r0 :: rest) ?okk x3 (Z.of_nat i)] =>
+      destruct (sg_loop2_tie x3 i mN 0 (pre ++ r0 :: rest) okk ltac:(rewrite app_length; cbn; lia)) as [ok2 E2] end.
+    change (Z.of_nat 0) with 0 in E2. rewrite E2. clear E2.
+    rewrite app_nth2, Hp, Nat.sub_diag by lia. cbn [nth].
+    pose proof (sg_copy_full x3 r0 ltac:(rewrite Hx3; apply Hrest; left; reflexivity)) as Ec. rewrite Hx3 in Ec. rewrite Ec. clear Ec.
+    pose proof (upd_nth_mid pre r0 x3 rest) as Hu. rewrite Hp in Hu. rewrite Hu. clear Hu.
+    replace (Z.of_nat i + 1) with (Z.of_nat (S i)) by lia.
+    replace (pre ++ x3 :: rest) with ((pre ++ [x3]) ++ rest) by (rewrite <- app_assoc; reflexivity).
+    set (h2 := if negb (nth (Z.to_nat (h - 1)) x 0 =? 1) then m else h - 1).
+    assert (Est : sg_step m (x, h) = (x3, h2)).
+    { unfold x3, h2, sg_step, zget. cbv zeta. cbn [fst]. f_equal. destruct (nth (Z.to_nat (h - 1)) x 0 =? 1); reflexivity. }
+    assert (Eh : (let '(h0, ok__) := if negb (nth (Z.to_nat (h - 1)) x 0 =? 1) then (m, ok2) else (h - 1, ok2) in
+                  gen_simplex_grid_loop1 f (Z.of_nat (S i)) h0 x3 ((pre ++ [x3]) ++ rest) ok__ m) =
+                 gen_simplex_grid_loop1 f (Z.of_nat (S i)) h2 x3 ((pre ++ [x3]) ++ rest) ok2 m)
+      by (unfold h2; destruct (negb _); reflexivity).
+    rewrite Eh. rewrite Est. cbn [fst].
+    destruct (IH (S i) h2 x3 (pre ++ [x3]) rest ok2) as (h' & x' & ok' & E);
+      [rewrite app_length; cbn; lia|exact Hx3|intros row Hr; apply Hrest; right; exact Hr|lia|].
+    exists h', x', ok'. rewrite E. rewrite <- app_assoc. reflexivity.
+Qed.
+
+Theorem gen_simplex_grid_tie n : 0 <= num_compositions_jit m n ->
+  fst (gen_simplex_grid m n) =
+    match simplex_grid m n with
+    | None => inl "ValueError: Maximum allowed size exceeded"%string
+    | Some rows => inr rows
+    end.
+Proof.
+  intro HL. unfold gen_simplex_grid, simplex_grid. cbv zeta. rewrite gen_num_compositions_jit_tie.
+  set (L := num_compositions_jit m n) in *. destruct (L =? 0) eqn:EL; [reflexivity|]. apply Z.eqb_neq in EL.
+  unfold zupd. rewrite <- upd_upd_nth. replace (Z.to_nat m) with mN by (unfold m; lia).
+  set (x0 := upd_nth (repeat 0 mN) (Z.to_nat (m - 1)) n).
+  assert (Hx0 : length x0 = mN) by (unfold x0; rewrite upd_nth_length, repeat_length; reflexivity).
+  replace (Z.to_nat (m - 0)) with mN by (unfold m; lia).
+  rewrite sg_loop0_eq.
+  destruct (Z.to_nat L) as [|LN] eqn:ELN; [lia|]. cbn [repeat].
+  match goal with |- context [gen_simplex_grid_loop2 mN 0 (repeat 0 mN :: repeat (repeat 0 mN) LN) ?okk x0 0] =>
+    destruct (sg_loop2_tie x0 0 mN 0 (repeat 0 mN :: repeat (repeat 0 mN) LN) okk ltac:(cbn; lia)) as [ok2 E2] end.
+  change (Z.of_nat 0) with 0 in E2. rewrite E2. clear E2. cbn [nth upd_nth].
+  pose proof (sg_copy_full x0 (repeat 0 mN) ltac:(rewrite repeat_length, Hx0; reflexivity)) as Ec. rewrite Hx0 in Ec. rewrite Ec. clear Ec.
+  replace (Z.to_nat (L - 1)) with LN by lia.
+  destruct (sg_loop1_tie LN 1 m x0 [x0] (repeat (repeat 0 mN) LN) ok2 eq_refl Hx0) as (h' & x' & ok' & E).
+  - intros row Hr. apply repeat_spec in Hr. subst row. apply repeat_length.
+  - rewrite repeat_length. lia.
+  - change (Z.of_nat 1) with 1 in E. cbn [app] in E. rewrite E. cbn [fst].
+    rewrite skipn_all2 by (rewrite repeat_length; lia). rewrite app_nil_r. reflexivity.
+Qed.
+End Grid.
